@@ -117,7 +117,8 @@ uint64_t now_seq();       // global event sequence number (monotone)
 void fold(uint64_t x);    // fold into the event-log hash
 void fold_str(const char *s);
 void probe(const char *name, uint64_t n = 1);
-uint64_t probe_count(const char *name); // current value in this run
+uint64_t probe_count(const char *name);
+void probe_reset(const char *name); // current value in this run
 void mark_progress();     // current fiber did useful work
 void global_progress();   // the system as a whole made progress (liveness)
 void request_abort();     // leave the parallel region at the next scheduling point
